@@ -412,3 +412,23 @@ func containsGoto(n ast.Node) (contains bool) {
 	})
 	return
 }
+
+// free-floating comment groups in front of the package clause consisting of directives only
+// (//go:debug ..., not the build constraints, not the doc comment of the package)
+func headDirectives(f *ast.File) (xs []*ast.CommentGroup) {
+	for _, g := range f.Comments {
+		if g == f.Doc || g.End() >= f.Package {
+			continue
+		}
+		directives := len(g.List) > 0
+		for _, c := range g.List {
+			if !strings.HasPrefix(c.Text, "//go:") || strings.HasPrefix(c.Text, "//go:build") || strings.HasPrefix(c.Text, "//go:generate") {
+				directives = false
+			}
+		}
+		if directives {
+			xs = append(xs, g)
+		}
+	}
+	return
+}
